@@ -31,6 +31,10 @@ def header_bound_ops(tree, spec):
                     out.append(({"op": "line_set", "file": "Header", "line": i, "text": f"{float(lo) + dx!r} {hi}"}, lv, True, "bounds-lo"))
                     out.append(({"op": "line_set", "file": "Header", "line": i, "text": f"{lo} {float(hi) - dx / 2!r}"}, lv, True, "bounds-hi"))
                     out.append(({"op": "line_set", "file": "Header", "line": i, "text": f"{lo}   {hi} "}, lv, None, "bounds-whitespace"))
+                    # bounds that are no numbers of the mesh at all (comparisons with NaN are false both ways)
+                    out.append(({"op": "line_set", "file": "Header", "line": i, "text": f"{['nan', '-nan', 'NaN'][(b + d) % 3]} {hi}"}, lv, True, "bounds-nan-lo"))
+                    out.append(({"op": "line_set", "file": "Header", "line": i, "text": f"{lo} nan"}, lv, True, "bounds-nan-hi"))
+                    out.append(({"op": "line_set", "file": "Header", "line": i, "text": f"{lo} {['inf', '-inf'][d % 2]}"}, lv, True, "bounds-inf"))
                 i += 1
         i += 1
     return out
@@ -78,8 +82,9 @@ def sweep(ctx, rep, model, focus):
     nspec = 8 if ctx.quick else 24
     for si in range(nspec):
         spec = plotgen.random_spec(ctx.rng, ndims=[3, 2, 3][si % 3], nlev=[2, 2, 1, 3][si % 4], nf=[2, 3, 1][si % 3],
-                                   data=["tags", "bits"][si % 2], B=2, layout=["scatter", "files", "perm"][si % 3],
-                                   nblk=([2, 1, 1] if si % 3 != 1 else [2, 2]) if ctx.quick else None, refine_p=0.3)
+                                   data=["tags", "bits"][si % 2], B=[2, 2, 2, 1][si % 4], layout=["scatter", "files", "perm"][si % 3],
+                                   nblk=(([2, 1, 1] if si % 3 != 1 else [2, 2]) if si % 4 != 3 else ([3, 2, 2] if si % 3 != 1 else [3, 3]))
+                                   if ctx.quick else None, refine_p=0.3)
         pristine = ctx.newdir("c04p_")
         plotgen.materialize(spec, pristine)
         ptree = tastelib.snapshot(pristine)
